@@ -38,7 +38,6 @@ theorem handedOut_of_nofin {ext : List TEv} (h : finOrders ext = []) : handedOut
     | fired _ => exact ih (by simpa [finOrders] using h)
     | rel _ _ _ => exact ih (by simpa [finOrders] using h)
     | skip _ _ => exact ih (by simpa [finOrders] using h)
-    | dropped _ _ => exact ih (by simpa [finOrders] using h)
 
 theorem register_goReg (p : Pool) (o : Obj) :
     (∀ x ∈ (register p o).goReg, x ∈ p.goReg ∨ x = o) ∧ (p.goReg.Nodup → (register p o).goReg.Nodup) := by
@@ -435,7 +434,7 @@ theorem J.step {w : World} (h : J w) (e : WEv) (hd : discEv w e = true) : J (w.s
       | popRel =>
         have htr := popRel_tr hf'
         have := h.quiet (ClonePool.use w.pool .popRel) _ htr
-          (by rw [finOrders_append, finOrders_append, finOrders_skipEvs, finOrders_skipEvs, finOrders_relEvs]; rfl)
+          (by rw [finOrders_append, finOrders_skipEvs, finOrders_relEvs]; rfl)
           (fun e he => by rw [use_of_not_fatal hf'] at he; simp [ClonePool.xAR, ClonePool.skipAF, afState] at he)
           (by rw [use_of_not_fatal hf']; simp [ClonePool.xAR, ClonePool.skipAF, afState])
           (by rw [use_of_not_fatal hf']; simp [ClonePool.xAR, ClonePool.skipAF, afState])
